@@ -115,13 +115,15 @@ pub fn cfg(p: &Profile) -> BoxedStrategy<Cfg> {
         hooks(p.hooks_max),
         hooks(p.hooks_max),
         hooks(p.hooks_max),
+        0u8..4,
     )
-        .prop_map(|(max_size, lifo, post_create, pre_recycle, post_recycle)| Cfg {
+        .prop_map(|(max_size, lifo, post_create, pre_recycle, post_recycle, via)| Cfg {
             max_size,
             lifo,
             post_create,
             pre_recycle,
             post_recycle,
+            via,
         })
         .boxed()
 }
@@ -307,7 +309,7 @@ pub fn matrix_case() -> BoxedStrategy<Case> {
             let idle = idle.min(max_size);
             let held = held.min(max_size - idle);
             Case {
-                cfg: Cfg { max_size, lifo, post_create, pre_recycle, post_recycle },
+                cfg: Cfg { max_size, lifo, post_create, pre_recycle, post_recycle, via: 0 },
                 script: Script::default(),
                 steps: vec![],
                 matrix: Some(MatrixSpec { idle, held, reject_backend }),
@@ -350,7 +352,7 @@ pub fn sweep2_case(prop: &str, thorough: bool) -> BoxedStrategy<Case> {
 pub fn timed_case(thorough: bool) -> BoxedStrategy<Case> {
     tsim::managed_runtime_case(thorough)
         .prop_map(|t| Case {
-            cfg: Cfg { max_size: t.max_size, lifo: false, post_create: vec![], pre_recycle: vec![], post_recycle: vec![] },
+            cfg: Cfg { max_size: t.max_size, lifo: false, post_create: vec![], pre_recycle: vec![], post_recycle: vec![], via: 0 },
             script: Script::default(),
             steps: vec![],
             matrix: None,
@@ -422,7 +424,7 @@ pub fn resize_overlap_case() -> BoxedStrategy<Case> {
             }
             steps.extend(tail);
             Case {
-                cfg: Cfg { max_size, lifo, post_create, pre_recycle, post_recycle },
+                cfg: Cfg { max_size, lifo, post_create, pre_recycle, post_recycle, via: 0 },
                 script: Script::default(),
                 steps,
                 matrix: None,
